@@ -32,6 +32,8 @@ func runC03(c *core.Ctx) {
 	c.Rule("ABS5", "per-key record count and group removal")
 	c.Rule("UNI7", "aggregate Trigger constructs the declared OutputType")
 	c.Rule("TRG", "Trigger reads the right end / order of the container")
+	c.Rule("AVG", "average = running sum / running count")
+	checkAverageTrigger(c)
 	c.Rule("ABS4", "key comparators are ascending")
 	for _, s := range groupBySites {
 		checkNullSkip(c, s.rel, s.fn, ids)
